@@ -37,11 +37,13 @@ def termsN (l : RawLine) : Line := lexLine l
 def termsOf (comment : Bool) (l : RawLine) : Line := if comment then termsC l else termsN l
 
 /-- the token rows pandas reads: see the header of this file. -/
+def rowsOf (comment : Bool) (lines : List RawLine) : List Line :=
+  (lines.map (termsOf comment)).filter (fun t => !t.isEmpty)
+
 def selectRows (comment : Bool) (lines : List RawLine) (skip : Nat) (nrows : Option Nat) : List Line :=
-  let rows := ((lines.drop skip).map (termsOf comment)).filter (fun t => !t.isEmpty)
   match nrows with
-  | some n => rows.take n
-  | none => rows
+  | some n => (rowsOf comment (lines.drop skip)).take n
+  | none => rowsOf comment (lines.drop skip)
 
 /-- Python `s.strip()`. -/
 def pyStrip (s : List Char) : List Char :=
@@ -361,9 +363,11 @@ def readMass (terms : Line) (masses : List (Option Rat)) : Res (List (Option Rat
 /-- does the line contain `#`? -/
 def hasHash (l : RawLine) : Bool := l.any (· = '#')
 
-/-- one iteration of the loop of `firstpass` on line number `i`. -/
-def fpStep (lf : Option Rat) (i : Nat) (full : RawLine) (s : FP) : Res FP :=
-  let terms := termsC full
+/-- the atom_style comment of a line: the stripped text after the first `#`, if there is one. -/
+def hintOf (full : RawLine) : Option (List Char) := if hasHash full then some (pyStrip (commentOf full)) else none
+
+/-- one iteration of the loop of `firstpass` on line number `i`, given the terms of the line and its comment. -/
+def fpStepT (lf : Option Rat) (i : Nat) (terms : Line) (hint : Option (List Char)) (s : FP) : Res FP :=
   if terms.isEmpty then pure s else
   match classify terms with
   | .natoms n => do let v ← pyInt n; pure { s with natoms := some v }
@@ -375,8 +379,7 @@ def fpStep (lf : Option Rat) (i : Nat) (full : RawLine) (s : FP) : Res FP :=
     let a ← pyFloat a; let b ← pyFloat b; let c ← pyFloat c
     pure { s with xy := mulBy lf a, xz := mulBy lf b, yz := mulBy lf c }
   | .atoms =>
-    pure { s with atomsStart := some (i + 1), firstAtoms := true,
-                  hint := if hasHash full then some (pyStrip (commentOf full)) else none }
+    pure { s with atomsStart := some (i + 1), firstAtoms := true, hint := hint }
   | k =>
     if s.firstAtoms then pure { s with atomsColumns := terms.length, firstAtoms := false }
     else if k = .masses then
@@ -389,6 +392,9 @@ def fpStep (lf : Option Rat) (i : Nat) (full : RawLine) (s : FP) : Res FP :=
       | none => throw "format"
     else if k = .velocities then pure { s with velStart := some (i + 1) }
     else pure s
+
+def fpStep (lf : Option Rat) (i : Nat) (full : RawLine) (s : FP) : Res FP :=
+  fpStepT lf i (termsC full) (hintOf full) s
 
 /-- `for i, fullline in enumerate(fp)`. -/
 def fpLoop (lf : Option Rat) : Nat → List RawLine → FP → Res FP
@@ -479,34 +485,41 @@ def chooseStyle (arg : Option String) (hint : Option (List Char)) : Res String :
   | some a, none => pure a
   | some a, some h => if a = String.ofList h then pure a else throw "value"
 
-/-- `read_atoms`. -/
-def readAtoms (lines : List RawLine) (fp : FirstPass) (s : Loaded) (style : String) (u : Units) : Res Loaded := do
+/-- `read_atoms` on the rows pandas selected after the `Atoms` line. -/
+def readAtoms (rows : List Line) (atomsColumns : Nat) (s : Loaded) (style : String) (u : Units) : Res Loaded := do
   let cols ← lookupCols Gen.LoadStyles.atomStyles style u
   let ncols := colsWidth cols
-  let rows := selectRows true lines fp.atomsStart (some fp.natoms)
   let s1 ← tableLoad s rows cols true
-  if fp.atomsColumns = ncols + 3 then applyFlags s1 rows ncols
-  else if ncols ≠ fp.atomsColumns then throw "format"
+  if atomsColumns = ncols + 3 then applyFlags s1 rows ncols
+  else if ncols ≠ atomsColumns then throw "format"
   else pure s1
 
-/-- `read_velocities`. -/
-def readVelocities (lines : List RawLine) (fp : FirstPass) (s : Loaded) (style : String) (u : Units) : Res Loaded :=
-  match fp.velStart with
+/-- `read_velocities` on the rows pandas selected after the `Velocities` line (if there is one). -/
+def readVelocities (rows : Option (List Line)) (s : Loaded) (style : String) (u : Units) : Res Loaded :=
+  match rows with
   | none => pure s
-  | some vs => do
+  | some rows => do
     let cols ← lookupCols Gen.LoadStyles.velStyles style u
-    tableLoad s (selectRows true lines vs (some fp.natoms)) cols false
+    tableLoad s rows cols false
 
-/-- `load('atom_data', data, pbc, symbols, atom_style, units)` on the physical lines of the file. -/
+/-- everything after the first pass, given all the rows pandas can see after the `Atoms` line and after the
+    `Velocities` line (`nrows=natoms` keeps the first `natoms` of them). -/
+def loadDataCore (fp : FirstPass) (rowsA : List Line) (rowsV : Option (List Line)) (pbc : V3 Bool)
+    (symbols : Option (List (Option String))) (styleArg : Option String) (u : Units) : Res Loaded := do
+  let s0 := Loaded.init fp.box pbc fp.natoms (initSymbols symbols fp.masses) fp.masses
+  if max s0.symbols.length s0.atomsNatypes < s0.masses.length then throw "value"
+  let style ← chooseStyle styleArg fp.hint
+  let s1 ← readAtoms (rowsA.take fp.natoms) fp.atomsColumns s0 style u
+  readVelocities (rowsV.map (·.take fp.natoms)) s1 style u
+
+/-- `load('atom_data', data, pbc, symbols, atom_style, units)` on the physical lines of the file: the tables are
+    read by pandas after skipping `atomsstart` / `velocitiesstart` physical lines. -/
 def loadDataLines (lines : List RawLine) (pbc : V3 Bool) (symbols : Option (List (Option String)))
     (styleArg : Option String) (u : Units) : Res Loaded := do
   let lf ← lengthFactor u
   let fp ← firstPass lf lines
-  let s0 := Loaded.init fp.box pbc fp.natoms (initSymbols symbols fp.masses) fp.masses
-  if max s0.symbols.length s0.atomsNatypes < s0.masses.length then throw "value"
-  let style ← chooseStyle styleArg fp.hint
-  let s1 ← readAtoms lines fp s0 style u
-  readVelocities lines fp s1 style u
+  loadDataCore fp (rowsOf true (lines.drop fp.atomsStart)) (fp.velStart.map fun vs => rowsOf true (lines.drop vs))
+    pbc symbols styleArg u
 
 def loadData (text : List Char) (pbc : V3 Bool) (symbols : Option (List (Option String)))
     (styleArg : Option String) (u : Units) : Res Loaded :=
@@ -555,8 +568,7 @@ def boundsLine (lf : Option Rat) (terms : Line) : Res (Rat × Rat × Option Rat)
     pure (mulBy lf a, mulBy lf b, some (mulBy lf c))
   else pure (mulBy lf a, mulBy lf b, none)
 
-def dsStep (lf : Option Rat) (i : Nat) (line : RawLine) (s : DS) : Res DS :=
-  let terms := termsN line
+def dsStepT (lf : Option Rat) (i : Nat) (terms : Line) (s : DS) : Res DS :=
   if terms.isEmpty then pure s else
   if s.readNatoms then do
     let n ← pyInt (← term terms 0)
@@ -593,6 +605,8 @@ def dsStep (lf : Option Rat) (i : Nat) (line : RawLine) (s : DS) : Res DS :=
     else pure s
   else pure s
 
+def dsStep (lf : Option Rat) (i : Nat) (line : RawLine) (s : DS) : Res DS := dsStepT lf i (termsN line) s
+
 def dsLoop (lf : Option Rat) : Nat → List RawLine → DS → Res DS
   | _, [], s => pure s
   | i, l :: ls, s => do let s' ← dsStep lf i l s; dsLoop lf (i + 1) ls s'
@@ -622,19 +636,14 @@ def dumpPCol (std : List Gen.AtomStyles.Col) (u : Units) (e : String × List Str
     are kept and the last one assigned wins). -/
 def renamePos (c : PCol) : PCol := if isPosLike c.prop then { c with prop := "pos" } else c
 
-/-- `load('atom_dump', data, symbols, lammps_units, prop_info=…)`. `given` is a caller-supplied `prop_info`. -/
-def loadDumpLines (lines : List RawLine) (symbols : Option (List (Option String))) (given : Option (List PCol))
-    (u : Units) : Res Loaded := do
-  let lf ← lengthFactor u
-  let s ← dsLoop lf 0 lines {}
-  let cols0 ← match given with
-    | some g => pure g
-    | none =>
-      match s.names with
-      | some names => do
-        let m ← matchProps Gen.LoadStyles.dumpStandard (names.map String.ofList)
-        m.mapM (dumpPCol Gen.LoadStyles.dumpStandard u)
-      | none => throw "value"
+/-- everything after the header loop of `load('atom_dump', …)`, given all the rows pandas can see after the
+    `ITEM: ATOMS` line. `given` is a caller-supplied `prop_info`. -/
+def loadDumpCore (s : DS) (rows : Option (List Line)) (symbols : Option (List (Option String)))
+    (given : Option (List PCol)) (u : Units) : Res Loaded := do
+  -- `matchprops` runs inside the header loop, `process_prop_info` after the box and the atoms were built
+  let m ← match given, s.names with
+    | none, some names => matchProps Gen.LoadStyles.dumpStandard (names.map String.ofList)
+    | _, _ => pure []
   let box ← match s.xlo, s.xhi, s.ylo, s.yhi, s.zlo, s.zhi with
     | some xlo, some xhi, some ylo, some yhi, some zlo, some zhi =>
       match Box.ofHiLos? xlo xhi ylo yhi zlo zhi s.xy s.xz s.yz with
@@ -645,9 +654,20 @@ def loadDumpLines (lines : List RawLine) (symbols : Option (List (Option String)
     | some n => if n < 0 then throw "value" else pure n.toNat
     | none => throw "type"
   let s0 := Loaded.init box (s.pbc.getD ⟨true, true, true⟩) natoms [] []
-  let start ← match s.atomsStart with | some v => pure v | none => throw "value"
-  let s1 ← tableLoad s0 (selectRows false lines start (some natoms)) (cols0.map renamePos) false
+  let cols0 ← match given, s.names with
+    | some g, _ => pure g
+    | none, some _ => m.mapM (dumpPCol Gen.LoadStyles.dumpStandard u)
+    | none, none => throw "value"
+  let rows ← match rows with | some v => pure v | none => throw "value"
+  let s1 ← tableLoad s0 (rows.take natoms) (cols0.map renamePos) false
   pure (match symbols with | some l => { s1 with symbols := l } | none => s1)
+
+/-- `load('atom_dump', data, symbols, lammps_units, prop_info=…)` on the physical lines of the file. -/
+def loadDumpLines (lines : List RawLine) (symbols : Option (List (Option String))) (given : Option (List PCol))
+    (u : Units) : Res Loaded := do
+  let lf ← lengthFactor u
+  let s ← dsLoop lf 0 lines {}
+  loadDumpCore s (s.atomsStart.map fun k => rowsOf false (lines.drop k)) symbols given u
 
 def loadDump (text : List Char) (symbols : Option (List (Option String))) (given : Option (List PCol)) (u : Units) :
     Res Loaded :=
@@ -763,6 +783,11 @@ def reshape : List Nat → List Rat → Option Tensor
 def allIndices : List Nat → List (List Nat)
   | [] => [[]]
   | d :: ds => ((List.range d).map fun i => (allIndices ds).map (i :: ·)).flatten
+
+/-- row-major (C order) offset of an index tuple: what `values.reshape(shape)[i][j]…` reads from the flat cells. -/
+def flatIndex : List Nat → List Nat → Nat
+  | _ :: ds, i :: is => i * shapeProd ds + flatIndex ds is
+  | _, _ => 0
 
 /-- `name[i][j]…`. -/
 def indexName (name : String) : List Nat → String
